@@ -285,7 +285,9 @@ fn parse_at_rule(
                 while let Ok(peek) = input.peek() {
                     match &*peek {
                         Token::Function(x) => {
-                            let xs: &str = &x;
+                            // function names are ASCII case-insensitive
+                            let xs = x.to_ascii_lowercase();
+                            let xs = xs.as_str();
                             if !matches!(xs, "layer" | "supports") {
                                 ss.add_warning(
                                     error::ParseErrorKind::UnexpectedCharacter,
@@ -294,7 +296,7 @@ fn parse_at_rule(
                                 break;
                             }
                             input.next().ok();
-                            let st = StepToken::wrap(Token::AtKeyword(x.clone()), peek.position);
+                            let st = StepToken::wrap(Token::AtKeyword(xs.into()), peek.position);
                             ss.append_token(st, input, Some(peek.token.clone()));
                             match xs {
                                 "layer" => {
